@@ -6,11 +6,11 @@ import EmdProofs.Basic
 namespace EmdModel
 
 /-- a node the theorems speak about: a valid link name, a class the reader can find and whose group type
-    the class table agrees on, a group type of the EMD vocabulary, and a body none of whose entries could be
-    mistaken for a tree child -/
+    the class table agrees on, a group type of the EMD vocabulary, and a body none of whose entries carries a
+    data group type tag (so none could be mistaken for a tree child) -/
 def infoWF (ct : ClassTable) (dt : List String) (i : NodeInfo) : Bool :=
   validName i.name && (alookup i.cls ct == some i.gtype) && EmdGen.groupTypes.contains i.gtype
-    && i.body.all (fun kv => !isDataKid dt kv.2)
+    && i.body.all (fun kv => !hasDataTag dt kv.2)
 
 mutual
 /-- well-formed tree: every node is `infoWF`; below every node the child names are pairwise distinct
@@ -50,5 +50,13 @@ theorem kidsWF_mono {ct dt} : ∀ (kids : List Tree) (t1 t2 : List String), (∀
       cases hn with
       | inl h => exact Or.inl h
       | inr h => exact Or.inr (hsub _ h)) hr
+
+theorem body_not_dataKid {dt : List String} {body : List (String × Obj)}
+    (h : body.all (fun kv => !hasDataTag dt kv.2) = true) : body.all (fun kv => !isDataKid dt kv.2) = true := by
+  rw [List.all_eq_true] at h ⊢
+  intro x hx
+  have := h x hx
+  simp only [Bool.not_eq_true', isDataKid, Bool.and_eq_false_iff] at this ⊢
+  exact Or.inr this
 
 end EmdModel
